@@ -42,12 +42,13 @@ package fox
 //@   -- assumed: the tree's pool only ever holds contexts (it is filled by allocateContext and by Put of contexts)
 //@   assume-at after (*Pool).Get#1 : pool-type: dyntypeIs(call_result, *cTx) && unbox(call_result, *cTx) != nil
 //@   requires c != nil && c.tree != nil && c.params != nil && c.tsrParams != nil
-//@   modifies cTx.req, cTx.w, cTx.route, cTx.scope, cTx.cachedQuery, cTx.tsr, C[Params], E[Param], released
+//@   modifies cTx.req, cTx.w, cTx.route, cTx.scope, cTx.cachedQuery, cTx.tsr, C[Params], E[Param], released, poolOut
 //@   ensures live: !released[result]
 //@   assume-at call copyWithResize[github.com/tigerwill90/fox.Params github.com/tigerwill90/fox.Param]#1 : pool-discipline: cp != nil && cp != c && cp.params != nil && cp.tsrParams != nil && cp.params != c.params && cp.tsrParams != c.tsrParams
 //@   assume-at call copyWithResize[github.com/tigerwill90/fox.Params github.com/tigerwill90/fox.Param]#2 : pool-discipline: cp != nil && cp != c && cp.params != nil && cp.tsrParams != nil && cp.params != c.params && cp.tsrParams != c.tsrParams
 //@   ensures copy: dyntypeIs(result, *cTx) && unbox(result, *cTx) != nil && unbox(result, *cTx).req == r && unbox(result, *cTx).w == w && unbox(result, *cTx).route == c.route && unbox(result, *cTx).scope == c.scope && unbox(result, *cTx).tsr == c.tsr
 //@   ensures fresh-query: unbox(result, *cTx).cachedQuery == nil
+//@   ensures @C12,C16 taken: poolOut[&c.tree.ctx] == old(poolOut[&c.tree.ctx]) + 1
 
 //@ -- copies *src into *dst, growing dst when needed; src is only read
 //@ func copyWithResize[github.com/tigerwill90/fox.Params github.com/tigerwill90/fox.Param] props C12,C08
@@ -57,8 +58,9 @@ package fox
 
 //@ func (*cTx).Close props C12
 //@   requires c != nil && c.tree != nil
-//@   modifies released[box(c)]
+//@   modifies released[box(c)], poolOut
 //@   ensures returned: released[box(c)]
+//@   ensures @C12,C16 given-back: poolOut[&c.tree.ctx] == old(poolOut[&c.tree.ctx]) - 1
 
 //@ -- ---------------------------------------------------------------- C12: Clone snapshots the current writer
 //@ fun wSize(w ResponseWriter, epoch int) int
